@@ -62,6 +62,12 @@ pub fn streams(thorough: bool) -> Vec<(String, Vec<u8>)> {
         s.extend_from_slice(tail);
         v.push((format!("http-then-{}", n), s));
     }
+    // a call carried by two and by three record fragments
+    {
+        let body = apprpc::build_call(0x61626364, 2, 100000, 2, 3, &[], &[]);
+        v.push(("rpc-getport2-2frag".into(), apprpc::with_fragments(&body, &[10])));
+        v.push(("rpc-getport2-3frag".into(), apprpc::with_fragments(&body, &[4, 30])));
+    }
     // AUTH_UNIX-sized credentials and a verifier
     {
         let cred: Vec<u8> = (0..20).map(|k| 0x41 + k as u8).collect();
@@ -89,16 +95,16 @@ fn cuts_of(len: usize, ncuts: usize) -> Vec<Vec<usize>> {
     }
 }
 
-fn segments(f: &Flow, ack: u32, s: &[u8], cuts: &[usize], empty_at: Option<usize>) -> Vec<Vec<u8>> {
+fn segments(f: &Flow, ack: u32, s: &[u8], cuts: &[usize], empty_at: Option<usize>, base: u32) -> Vec<Vec<u8>> {
     let mut v = Vec::new();
     let mut bounds = vec![0usize];
     bounds.extend_from_slice(cuts);
     bounds.push(s.len());
     for (k, w) in bounds.windows(2).enumerate() {
         if empty_at == Some(k) {
-            v.push(f.tcp(1000 + w[0] as u32, ack, F_PSH | F_ACK, b""));
+            v.push(f.tcp(base.wrapping_add(w[0] as u32), ack, F_PSH | F_ACK, b""));
         }
-        v.push(f.tcp(1000 + w[0] as u32, ack, F_PSH | F_ACK, &s[w[0]..w[1]]));
+        v.push(f.tcp(base.wrapping_add(w[0] as u32), ack, F_PSH | F_ACK, &s[w[0]..w[1]]));
     }
     v
 }
@@ -135,7 +141,7 @@ pub fn run(rep: &mut Report, thorough: bool) {
         |i| {
             let s = &ss[i as usize].1;
             let mut cmds: Vec<Cmd> = vec![Cmd::Frame(f.tcp(1000, ack, F_PSH | F_ACK, s)), Cmd::Reset];
-            for fr in segments(&f, ack, s, &(1..s.len()).collect::<Vec<_>>(), None) {
+            for fr in segments(&f, ack, s, &(1..s.len()).collect::<Vec<_>>(), None, 1000) {
                 cmds.push(Cmd::Frame(fr));
             }
             cmds
@@ -166,7 +172,7 @@ pub fn run(rep: &mut Report, thorough: bool) {
                 key: "finest-vs-whole".into(),
                 what: format!("stream {}: unsegmented run answered={} but byte-by-byte run answered={}", name, whole.is_some(), trig.is_some()),
                 cfg: cfg.clone(),
-                cmds: segments(&f, ack, &ss[*i as usize].1, &(1..ss[*i as usize].1.len()).collect::<Vec<_>>(), None).into_iter().map(Cmd::Frame).collect(),
+                cmds: segments(&f, ack, &ss[*i as usize].1, &(1..ss[*i as usize].1.len()).collect::<Vec<_>>(), None, 1000).into_iter().map(Cmd::Frame).collect(),
                 idx: *i,
                 stage: "reference-runs".into(),
             });
@@ -175,24 +181,34 @@ pub fn run(rep: &mut Report, thorough: bool) {
     rep.stage("reference-runs", "each stream unsegmented and byte by byte", ss.len() as u64, t0);
     // pass 2: compositions
     let t0 = std::time::Instant::now();
-    let mut scen: Vec<(usize, Vec<usize>, Option<usize>)> = Vec::new();
+    let mut scen: Vec<(usize, Vec<usize>, Option<usize>, u32)> = Vec::new();
     for (si, (_, s)) in ss.iter().enumerate() {
         for c in cuts_of(s.len(), 1) {
-            scen.push((si, c.clone(), None));
+            scen.push((si, c.clone(), None, 1000));
             // zero-length segment inserted at each boundary (before segment k)
             for k in 0..2 {
-                scen.push((si, c.clone(), Some(k)));
+                scen.push((si, c.clone(), Some(k), 1000));
             }
         }
         let two = thorough || si % 4 == 0;
         if two {
             for c in cuts_of(s.len(), 2) {
-                scen.push((si, c.clone(), None));
+                scen.push((si, c.clone(), None, 1000));
                 if thorough {
                     for k in 0..3 {
-                        scen.push((si, c.clone(), Some(k)));
+                        scen.push((si, c.clone(), Some(k), 1000));
                     }
                 }
+            }
+        }
+    }
+    // the same 1-cuts with client sequence numbers that wrap past 2^32 inside the request (at its
+    // 6th byte) and right at its first byte
+    for (si, (_, s)) in ss.iter().enumerate() {
+        if thorough || si % 3 == 0 {
+            for c in cuts_of(s.len(), 1) {
+                scen.push((si, c.clone(), None, 0xffff_ffff - 5));
+                scen.push((si, c, None, 0xffff_ffff));
             }
         }
     }
@@ -202,11 +218,11 @@ pub fn run(rep: &mut Report, thorough: bool) {
         scen.len() as u64,
         &opts,
         |i| {
-            let (si, cuts, empty_at) = &scen[i as usize];
-            segments(&f, ack, &ss[*si].1, cuts, *empty_at).into_iter().map(Cmd::Frame).collect()
+            let (si, cuts, empty_at, base) = &scen[i as usize];
+            segments(&f, ack, &ss[*si].1, cuts, *empty_at, *base).into_iter().map(Cmd::Frame).collect()
         },
         |it: &Item, sk: &mut Sink| {
-            let (si, cuts, empty_at) = &scen[it.idx as usize];
+            let (si, cuts, empty_at, _base) = &scen[it.idx as usize];
             let model = Model::new();
             engine::judge_item(&cfg, &model, &cookies, it, it.cmds.len(), "compositions", sk);
             sk.count("frames", it.cmds.len() as u64 - 1);
@@ -266,7 +282,7 @@ pub fn run(rep: &mut Report, thorough: bool) {
         &mut rep.sink,
     );
     rep.transitions += scen.len() as u64;
-    rep.stage("compositions", "streams x (every 1-cut [x zero-length insertion], every 2-cut of the selected streams)", scen.len() as u64, t0);
+    rep.stage("compositions", "streams x (every 1-cut [x zero-length insertion], every 2-cut of the selected streams, every 1-cut again with sequence numbers wrapping past 2^32 inside the request)", scen.len() as u64, t0);
     parser_bfs(rep, &cfg, &f, ack, &cookies, thorough);
 }
 
